@@ -78,6 +78,74 @@ func checkIDs(t hx.TB, test, c, out string, keep []int, distinctIn map[int]bool)
 	}
 }
 
+// refCounts scans module text (outside strings and comments) and counts the references `!N` per ID;
+// the definition `!N = ...` itself is not a reference.
+func refCounts(text string) map[int]int {
+	out := map[int]int{}
+	lineStart := true
+	for i := 0; i < len(text); {
+		c := text[i]
+		switch {
+		case c == '"':
+			i++
+			for i < len(text) && text[i] != '"' {
+				i++
+			}
+			i++
+			lineStart = false
+		case c == ';':
+			for i < len(text) && text[i] != '\n' {
+				i++
+			}
+		case c == '\n':
+			lineStart = true
+			i++
+		case c == '!' && i+1 < len(text) && text[i+1] >= '0' && text[i+1] <= '9':
+			j := i + 1
+			for j < len(text) && text[j] >= '0' && text[j] <= '9' {
+				j++
+			}
+			n, _ := strconv.Atoi(text[i+1 : j])
+			k := j
+			for k < len(text) && (text[k] == ' ' || text[k] == '\t') {
+				k++
+			}
+			if !(lineStart && k < len(text) && text[k] == '=') {
+				out[n]++
+			}
+			i = j
+			lineStart = false
+		case c == ' ' || c == '\t':
+			i++
+		default:
+			i++
+			lineStart = false
+		}
+	}
+	return out
+}
+
+// checkRefCounts: explicit IDs are kept, so every reference `!N` of the input is a reference `!N` of the
+// output (a reference that became an inline copy, or an inline node that became a reference, shows here).
+func checkRefCounts(t hx.TB, test, x, out string) {
+	in, got := refCounts(x), refCounts(out)
+	var ids []int
+	for id := range in {
+		ids = append(ids, id)
+	}
+	for id := range got {
+		if _, ok := in[id]; !ok {
+			ids = append(ids, id)
+		}
+	}
+	sort.Ints(ids)
+	for _, id := range ids {
+		if in[id] != got[id] {
+			hx.Fail(t, test, "ll", x, "the input refers to !%d %d time(s), the printed module %d time(s): a reference was replaced by a copy of the node (or a node by a reference)\n%s", id, in[id], got[id], out)
+		}
+	}
+}
+
 // identity checks that every reference to a numbered node in the parsed module is the defining object.
 func identity(pm *ir.Module) string {
 	def := map[metadata.Definition]bool{}
@@ -201,6 +269,7 @@ func TestMetadataGraphsFromText(t *testing.T) {
 		if s := identity(o.M); s != "" {
 			hx.Fail(rt, test, "ll", x, "%s", s)
 		}
+		checkRefCounts(rt, test, x, o.Out)
 		if split {
 			hx.Hist("named_metadata_defined_twice")
 		}
@@ -252,6 +321,7 @@ func TestClangCorpus(t *testing.T) {
 		}
 		ids, dist := defs(x)
 		checkIDs(t, test, x, o.Out, ids, dist)
+		checkRefCounts(t, test, x, o.Out)
 		if s := identity(o.M); s != "" {
 			hx.Fail(t, test, "ll", x, "%s", s)
 		}
